@@ -22,3 +22,7 @@ func PreemptAtSync() {}
 // native replays (a no-op under the engine, where such goroutines only run
 // when the engine schedules them). It models "this takes a while".
 func NativeDelay() { nativeDelay() }
+
+// PreemptionBound lowers the number of voluntary goroutine switches the engine
+// explores on this path (a no-op natively).
+func PreemptionBound(n int) {}
